@@ -164,7 +164,15 @@ def sweep(ctx, n):
                     eH = float(np.max(np.linalg.norm(H - Hq, axis=1) / rown))
                     eB = float(np.max(np.linalg.norm(B - mu_0 * Hq, axis=1) / (mu_0 * rown)))
                     # the closed forms lose digits like (distance / size)^3 (documented for the Cuboid; the elliptic-integral forms lose more)
-                    tol = max({"CylinderSegment": 5e-5, "Cylinder": 1e-5}.get(cls, 3e-6), 30 * quad_est)
+                    # ... so the tolerance follows the farthest row's distance measured in the body's SMALLEST extent (a 0.65 x 0.73 x 1.86
+                    # Cuboid seen from 1200 away is 1900 smallest sides away: 2e-16 * 1900^3 ~ 1.5e-6 of digit loss is the closed form's own)
+                    dims_ = np.abs(np.asarray(getattr(src, "dimension", None) if getattr(src, "dimension", None) is not None else [local_size(src)], dtype=float))
+                    dims_ = dims_[:3] if cls == "CylinderSegment" else dims_
+                    if cls == "CylinderSegment":
+                        dims_ = np.array([dims_[1] - dims_[0], dims_[2], dims_[1]])
+                    smin_ = float(np.min(dims_[dims_ > 0])) if np.any(dims_ > 0) else float(local_size(src))
+                    loss_ = 40 * 2.2e-16 * float(np.max(np.linalg.norm(loc, axis=1)) / smin_) ** 3
+                    tol = max({"CylinderSegment": 5e-5, "Cylinder": 1e-5}.get(cls, 3e-6), 30 * quad_est, loss_)
                     done += len(loc)
                     worst[f"{cls}:far"] = max(worst.get(f"{cls}:far", 0), eH, eB)
                     if not (eH < tol and eB < tol):
